@@ -81,6 +81,10 @@ class Model:
             self.col = max(0, self.col - 1)
         elif seq == '\x1b[C':
             self.col += 1
+        elif seq == '\x08':
+            self.col = max(0, self.col - 1)
+        elif len(seq) == 1 and ord(seq) < 0x20:
+            pass                    # BEL and the other C0 controls have no effect on what the line shows
         else:
             self.put(seq)
 
@@ -146,6 +150,21 @@ def run_word(word, status, prompt, a, b, choices):
             m.vals['cursor#%d' % origin[i]] = m.cur
         elif lab == 'E.len':
             m.vals['len#%d' % origin[i]] = len(m.text)
+        elif lab.startswith('IF(empty('):
+            x = lab[len('IF(empty('):].split(')')[0]
+            truth = lab.rsplit(':', 1)[1]
+            if x == 'prompt':
+                val_ = "".join(m.P)
+            elif x == 'typed':
+                val_ = 'T'
+            elif x == 'recalled':
+                val_ = choices.get('recalled', 'r')
+            elif x in m.vals:
+                val_ = m.vals[x]
+            else:
+                raise Infeasible("emptiness of unknown text " + x)
+            if (val_ == '') != (truth == 'T'):
+                raise Infeasible(lab)
         elif lab.startswith('IF('):
             body, truth = lab[3:].rsplit('):', 1)
             x, op, y = body.split(' ')
